@@ -79,7 +79,7 @@ func (x *Index) calc(n *polNode) uint64 { return 0 }
 
 func (x *Index) GetLeafPosition(hash Hash) (uint64, bool) {
 	n, found := x.NodeMap[hash.mini()]
-	if !found || n.data != hash {
+	if !found {
 		return 0, false
 	}
 	return x.calc(n), true
